@@ -623,12 +623,54 @@ func (h *rcH) step(a rcAct) (res string) {
 			return ""
 		}
 		h.barrier()
-		if c.St == "pending" {
-			h.collect(a.K, 40*time.Millisecond)
+		// the answer has been routed; a call it was routed to returns as soon as its goroutine runs
+		cand := false
+		for _, x := range h.calls {
+			if x.St == "pending" && x.Kind == c.Kind && (x.Key == key || x.Kind == "FeeQuotes") {
+				cand = true
+			}
+		}
+		before := h.pendingCount()
+		if cand {
+			for dl := time.Now().Add(700 * time.Millisecond); time.Now().Before(dl) && h.pendingCount() == before; {
+				h.collect(-1, 0)
+				time.Sleep(2 * time.Millisecond)
+			}
 		} else {
 			time.Sleep(10 * time.Millisecond)
 		}
 		h.collect(-1, 0)
+	case "Subscribe":
+		var err error
+		h1, h2 := rcHash(1), rcHash(2)
+		switch a.Kind {
+		case "subscribe_push_data":
+			err = h.c.SubscribePushDatas(ctx, [][]byte{{1, 2, 3}})
+		case "unsubscribe_push_data":
+			err = h.c.UnsubscribePushDatas(ctx, [][]byte{{1, 2, 3}})
+		case "subscribe_tx":
+			err = h.c.SubscribeTx(ctx, h1, []uint32{0})
+		case "unsubscribe_tx":
+			err = h.c.UnsubscribeTx(ctx, h1, []uint32{0})
+		case "subscribe_outputs":
+			err = h.c.SubscribeOutputs(ctx, []*wire.OutPoint{wire.NewOutPoint(&h2, 1)})
+		case "unsubscribe_outputs":
+			err = h.c.UnsubscribeOutputs(ctx, []*wire.OutPoint{wire.NewOutPoint(&h2, 1)})
+		case "subscribe_headers":
+			err = h.c.SubscribeHeaders(ctx)
+		case "unsubscribe_headers":
+			err = h.c.UnsubscribeHeaders(ctx)
+		case "subscribe_contracts":
+			err = h.c.SubscribeContracts(ctx)
+		case "unsubscribe_contracts":
+			err = h.c.UnsubscribeContracts(ctx)
+		default:
+			return "unknown subscription"
+		}
+		if err != nil {
+			return "subscribe: " + err.Error()
+		}
+		h.pump(1, rcWait)
 	case "RespondStale":
 		form := "ok"
 		if a.K != 0 {
@@ -751,6 +793,16 @@ func (hd *rcHandler) snapshot() []rcDel {
 	hd.mu.Lock()
 	defer hd.mu.Unlock()
 	return append([]rcDel{}, hd.d...)
+}
+
+func (h *rcH) pendingCount() int {
+	n := 0
+	for _, c := range h.calls {
+		if c.St == "pending" {
+			n++
+		}
+	}
+	return n
 }
 
 // queued: pending calls whose request has not reached the service yet (they wait for the handshake)
